@@ -3,6 +3,6 @@
 cd /verif
 for p in $(python3 -c "import json;print(' '.join(c['property_id'] for c in json.load(open('MANIFEST.json'))['checks']))"); do
   s=$(date +%s)
-  ./bin/check $p --tier ${1:-quick} > /tmp/runall-$p.log 2>&1; rc=$?
-  echo "$p rc=$rc $(( $(date +%s) - s ))s $(tail -1 /tmp/runall-$p.log | cut -c1-120)"
+  ./bin/check $p --tier ${1:-quick} > /tmp/runall-${1:-quick}-$p.log 2>&1; rc=$?
+  echo "$p rc=$rc $(( $(date +%s) - s ))s $(tail -1 /tmp/runall-${1:-quick}-$p.log | cut -c1-120)"
 done
